@@ -226,6 +226,12 @@ def gen_follow_context_candidate(rng, terms, start='E'):
     e_alts = [main, second]
     rng.shuffle(e_alts)
     prods = {start: e_alts, m_name: m_alts, n_name: n_alts, x_name: [(n_name, y) + tail(1)]}
+    if rng.random() < 0.5:
+        # one more level: FIRST of a symbol whose alternative starts with nullable symbols is needed
+        # by the production that uses it
+        w_name = next(nm for nm in NT_NAMES + ['W'] if nm not in prods)
+        prods[w_name] = prods[start]
+        prods[start] = [(w_name,) + tail(1)] if rng.random() < 0.7 else [(w_name, w_name)]
     items = list(prods.items())
     rng.shuffle(items)
     return dict(items)
